@@ -97,6 +97,25 @@ def check_c19(prop, tier):
         res.sample({"random_calls": hs2[0]["threads"][0][:10]})
         drift = len(s["drifts"]) + len(s2["drifts"]) + mism
         if drift and not res.violations:
+            # ESCALATION: the model does not explain some step. Continue the drifting sequences from the
+            # point of divergence with many random continuations over a small id set, monitors on.
+            esc = []
+            for src, summ in ((hs, s), (hs2, s2)):
+                lines = None
+                for d in summ["drifts"][:40]:
+                    sc = src[d["sc"]]
+                    if "threads" not in sc:
+                        continue
+                    calls = sc["threads"][0]
+                    for cut in (len(calls), max(1, len(calls) // 2)):
+                        for _ in range(12):
+                            esc.append(qscen([calls[:cut] + rand_queue_calls(rng, rng.range(4, 10), 3)], {"mode": "fixed", "seq": []}))
+            if esc:
+                h3 = run_harness("queue", esc, work, "esc")
+                s3 = tv(h3["trace"], "TraceQueue", "TraceQueue", work, timeout=3000)
+                res.add(escalation_sequences=len(esc), traces_validated_against_impl=s3["execs"], calls_judged=s3["seqjudged"])
+                judge(res, s3, {"C19", "PANIC"}, esc, "escalation after drift", {"KF-C19-1"})
+        if drift and not res.violations:
             print("DRIFT property=%s: %d steps not explained by the queue model (monitors hold)" % (prop, drift))
             res.level = "exploration"
             res.cov.update(evaluations=s["calls"] + s2["calls"], distinct_nontrivial=s["execs"] + s2["execs"],
